@@ -485,8 +485,12 @@ func execIndex(c *lib.Chain, h *IHistory, r *lib.Rand, fixed []IOp, rep *lib.Rep
 		if r.Chance(6) && len(al) > 0 {
 			al = append(al, al[0]) // duplicate
 		}
-		if r.Chance(6) {
-			al = append(al, baseIDs[r.Pick(3)]) // a base denom as alias
+		if r.Chance(14) {
+			b := baseIDs[r.Pick(3)] // a base denom as alias ...
+			if regs := registered(); len(regs) > 0 && r.Chance(70) {
+				b = regs[r.Pick(len(regs))] // ... mostly the base denom of a pair that exists at this point of the history
+			}
+			al = append(al, b)
 		}
 		return al
 	}
